@@ -4,6 +4,7 @@ import (
 	"fmt"
 	"go/constant"
 	"go/token"
+	"go/types"
 	"sort"
 	"strings"
 
@@ -369,4 +370,118 @@ func c09SlotClearedBeforeReceive(c *Ctx) {
 		}
 		c.Check("C09.R7", fmt.Sprintf("%s:slot-cleared-before-receive#%d", fk, i+1), cs.Instr.Pos(), cleared && !late, "connection.stream = nil dominates the delivery and nothing writes the slot afterwards", "the HTTP/1 connection's stream slot is not released before the response is delivered (or is written after it): delivery hands the connection back to the pool, the next lease fills the slot, and the late write wipes it - the next request's response has no stream to go to and the connection never returns to the pool")
 	}
+}
+
+// freshStreamPerTry (C09.R9 / C10.PAIR): the stream object a client connection hands out starts a new life.
+// stream.BaseStream carries the once-only state of a stream (reset -> destroying -> destroyed) and its listener list; the
+// pools release the connection, the requests-breaker slot and the active gauges in OnDestroyStream, which BaseStream runs
+// exactly once. The client stream objects of HTTP/1 and xprotocol live in the per-request buffer context, and a retry
+// opens its next try on the same request context - so the function that hands the object out must not pass on the
+// state of the try that ended. Clause, for every function of pkg/stream/{http,http2,xprotocol} that returns a client
+// stream embedding BaseStream (NewStream / newClientStream): each returned object is
+//
+//	(a) freshly allocated, or
+//	(b) a slot of the request's buffer context whose embedded stream is overwritten by a whole-struct store on every path
+//	    (`s.stream = stream{...}`), or
+//	(c) such a slot on a path where it was tested unused (a pointer field of the slot compared with nil).
+//
+// Otherwise the stream of a retry is born destroyed: its DestroyStream/ResetStream are no-ops, the connection is neither
+// returned to the pool nor closed, and the breaker slot and gauges of every retried request leak.
+func freshStreamPerTry(c *Ctx, rule string) {
+	type target struct{ pkg, typ, fn string }
+	n := 0
+	for _, t := range []target{{"pkg/stream/http", "clientStreamConnection", "NewStream"}, {"pkg/stream/xprotocol", "streamConn", "newClientStream"}, {"pkg/stream/http2", "clientStreamConnection", "NewStream"}} {
+		if c.TypesPkg(t.pkg) == nil {
+			continue // package not in this property's quick scope
+		}
+		fn := c.M(t.pkg, t.typ, t.fn)
+		if fn == nil {
+			c.Unresolved(rule, t.typ+"."+t.fn)
+			continue
+		}
+		fk := funcKey(fn)
+		var why string
+		var fresh func(v ssa.Value, gs []Guard, seen map[ssa.Value]bool) bool
+		fresh = func(v ssa.Value, gs []Guard, seen map[ssa.Value]bool) bool {
+			if seen[v] {
+				return true
+			}
+			seen[v] = true
+			switch x := v.(type) {
+			case *ssa.Alloc:
+				return true
+			case *ssa.MakeInterface:
+				return fresh(x.X, gs, seen)
+			case *ssa.ChangeInterface:
+				return fresh(x.X, gs, seen)
+			case *ssa.Phi:
+				for i, e := range x.Edges {
+					pred := x.Block().Preds[i]
+					eg := guardsAt(pred)
+					if ifi, ok := pred.Instrs[len(pred.Instrs)-1].(*ssa.If); ok && pred.Succs[0] != pred.Succs[1] {
+						eg = append(eg, normGuard(Guard{Cond: ifi.Cond, True: pred.Succs[0] == x.Block(), If: ifi})...)
+					}
+					if !fresh(e, eg, seen) {
+						return false
+					}
+				}
+				return true
+			case *ssa.FieldAddr:
+				// a slot of the per-context buffers
+				// (b) whole-struct store into an embedded struct field of the slot that dominates the return
+				for _, r := range refs(x) {
+					if fa, ok := r.(*ssa.FieldAddr); ok {
+						if _, isStruct := derefType(fa.Type()).Underlying().(*types.Struct); !isStruct {
+							continue
+						}
+						for _, rr := range refs(fa) {
+							if st, ok := rr.(*ssa.Store); ok && st.Addr == ssa.Value(fa) && unconditionalIn(st) {
+								return true
+							}
+						}
+					}
+				}
+				// (c) tested unused on the way here
+				for _, g := range gs {
+					bo, ok := g.Cond.(*ssa.BinOp)
+					if !ok || !isNilConst(bo.Y) {
+						continue
+					}
+					ld, ok := bo.X.(*ssa.UnOp)
+					if !ok {
+						continue
+					}
+					if fa, ok := ld.X.(*ssa.FieldAddr); ok && fa.X == ssa.Value(x) {
+						if (bo.Op == token.EQL && g.True) || (bo.Op == token.NEQ && !g.True) {
+							return true
+						}
+					}
+				}
+				_, fld, _, _ := fieldAddrInfo(x)
+				why = "the per-request slot " + fld + " is handed out again as it is"
+				return false
+			}
+			why = fmt.Sprintf("stream object of unrecognised origin (%T)", v)
+			return false
+		}
+		for i, rs := range returnSites(fn, 0) {
+			if isNilConst(rs.val) {
+				continue
+			}
+			n++
+			why = ""
+			ok := fresh(rs.val, guardsAt(rs.at.Block()), map[ssa.Value]bool{})
+			c.Check(rule, fmt.Sprintf("%s:fresh-stream-per-try#%d", fk, i+1), nearestPos(rs.at), ok, "the stream handed out is new, re-initialised as a whole, or a slot tested unused", "the client stream handed out for a new try can carry the state of the try that ended ("+why+"): a retry runs on the same request context, its stream is born destroyed, DestroyStream/ResetStream do nothing, the connection is neither pooled nor closed and the requests-breaker slot and active gauges of the retried request are never given back")
+		}
+	}
+	if n < 1 {
+		c.Unresolved(rule, "client stream constructors (NewStream / newClientStream)")
+	}
+}
+
+func derefType(t types.Type) types.Type {
+	if p, ok := t.Underlying().(*types.Pointer); ok {
+		return p.Elem()
+	}
+	return t
 }
